@@ -14,6 +14,8 @@ import (
 var InertTickers = true
 
 // Callers returns short "func:line" frames for diagnostics.
+//
+//go:norace
 func Callers(skip, n int) []string {
 	pc := make([]uintptr, n+skip)
 	k := runtime.Callers(skip, pc)
@@ -36,6 +38,8 @@ func Callers(skip, n int) []string {
 }
 
 // CallerNames returns bare function names (no line numbers: stable across edits).
+//
+//go:norace
 func CallerNames(skip, n int) []string {
 	pc := make([]uintptr, n+skip+4)
 	k := runtime.Callers(skip, pc)
@@ -71,6 +75,7 @@ type hchan struct {
 	closed   uint32
 }
 
+//go:norace
 func chanPtr(ch any) *hchan {
 	v := reflect.ValueOf(ch)
 	if v.Kind() != reflect.Chan {
@@ -83,6 +88,8 @@ func chanPtr(ch any) *hchan {
 }
 
 // RecvReady reports whether a receive from ch would not block.
+//
+//go:norace
 func RecvReady(ch any) bool {
 	h := chanPtr(ch)
 	if h == nil {
@@ -92,6 +99,8 @@ func RecvReady(ch any) bool {
 }
 
 // SendReady reports whether a send to ch would not block (buffer space or closed: panics, not blocks).
+//
+//go:norace
 func SendReady(ch any) bool {
 	h := chanPtr(ch)
 	if h == nil {
@@ -101,6 +110,8 @@ func SendReady(ch any) bool {
 }
 
 // IsClosed reports whether ch is closed.
+//
+//go:norace
 func IsClosed(ch any) bool {
 	h := chanPtr(ch)
 	return h != nil && h.closed != 0
@@ -109,6 +120,8 @@ func IsClosed(ch any) bool {
 // WaitAny blocks the running thread until one of the predicates holds. The instrumenter
 // emits it in front of every blocking channel statement; the statement that follows then
 // completes without blocking (nothing else runs in between).
+//
+//go:norace
 func WaitAny(site string, ready func() bool) {
 	if !active || Killed() {
 		if Killed() {
@@ -126,6 +139,8 @@ func WaitAny(site string, ready func() bool) {
 // Select blocks until at least one case is ready and returns the index of the case to
 // take. Go picks uniformly among ready cases; here that is an explicit choice (default:
 // first ready case in source order). With hasDefault it returns -1 if none is ready.
+//
+//go:norace
 func Select(site string, hasDefault bool, ready func() []bool) int {
 	if Killed() {
 		runtime.Goexit()
@@ -166,6 +181,7 @@ func Select(site string, hasDefault bool, ready func() []bool) int {
 	return idx[ex.choose(ChSelect, len(idx), false, site)]
 }
 
+//go:norace
 func init() {
 	// self-test of the hchan mirror; a layout change must fail loudly
 	c := make(chan int, 2)
@@ -196,9 +212,13 @@ type Entry[K comparable, V any] struct {
 }
 
 // Get returns the current value for the key (ok=false if it was deleted meanwhile).
+//
+//go:norace
 func (e Entry[K, V]) Get() (V, bool) { v, ok := e.m[e.K]; return v, ok }
 
 // Iter returns the keys of m in the order the explorer chose (default: sorted).
+//
+//go:norace
 func Iter[M ~map[K]V, K comparable, V any](site string, m M) []Entry[K, V] {
 	n := len(m)
 	if n == 0 {
@@ -219,6 +239,7 @@ func Iter[M ~map[K]V, K comparable, V any](site string, m M) []Entry[K, V] {
 	return out
 }
 
+//go:norace
 func sortEntries[K comparable, V any](s []Entry[K, V]) {
 	switch any(s[0].K).(type) {
 	case string:
@@ -239,6 +260,8 @@ func sortEntries[K comparable, V any](s []Entry[K, V]) {
 }
 
 // permCount: all n! orders for n<=3; for n>3 the n rotations plus their reversals (2n).
+//
+//go:norace
 func permCount(n int) int {
 	switch {
 	case n <= 1:
@@ -251,6 +274,7 @@ func permCount(n int) int {
 	return 2 * n
 }
 
+//go:norace
 func applyPerm[T any](s []T, p int) {
 	n := len(s)
 	if p == 0 || n < 2 {
